@@ -96,7 +96,7 @@ def scan_disagreement(ms, rc, lz):
         if mids.count(iid) > 1:
             continue
         ikw = lz["idx"][iid][0]
-        if ikw != "?" and (kw if kw != "-" else "(complex)") != ikw:       # "?": section not registered, no keyword to ask for
+        if ikw != "?" and kw != ikw:       # "?": section not registered, no keyword to ask for
             return "keyword of #%d: model %s, loader %s" % (iid, kw, ikw)
         if refs != lz["fwd"].get(iid, []):
             return "references of #%d: model %s, loader %s" % (iid, refs, lz["fwd"].get(iid, []))
